@@ -56,6 +56,8 @@ theorem inv_step {s s' : LState} {e : Ev} (hi : Inv s) (h : stepL s e = some s')
       · cases h
   | acc t a => simp only [stepL] at h; cases h; exact hi
   | spawn t c => simp only [stepL] at h; cases h; exact hi
+  | signal t c => simp only [stepL] at h; cases h; exact hi
+  | wait t c => simp only [stepL] at h; cases h; exact hi
 
 theorem inv_run {es : List Ev} {s s' : LState} (hi : Inv s) (h : runL s es = some s') : Inv s' := by
   induction es generalizing s with
@@ -87,6 +89,8 @@ theorem hold_kept {s s' : LState} {e : Ev} {t : Tid} {m : Mutex} {mode : Mode}
   cases e with
   | acc t' a => simp only [stepL] at h; cases h; exact hh
   | spawn t' c => simp only [stepL] at h; cases h; exact hh
+  | signal t' c => simp only [stepL] at h; cases h; exact hh
+  | wait t' c => simp only [stepL] at h; cases h; exact hh
   | acq t' m' mode' =>
     by_cases hm : m = m'
     · subst hm
@@ -156,6 +160,8 @@ theorem hold_gained {s s' : LState} {e : Ev} {u : Tid} {m : Mutex} {mode : Mode}
   cases e with
   | acc t' a => simp only [stepL] at h; cases h; exact absurd hh hn
   | spawn t' c => simp only [stepL] at h; cases h; exact absurd hh hn
+  | signal t' c => simp only [stepL] at h; cases h; exact absurd hh hn
+  | wait t' c => simp only [stepL] at h; cases h; exact absurd hh hn
   | acq t' m' mode' =>
     by_cases hm : m = m'
     · subst hm
